@@ -12,6 +12,16 @@
 (*                     (`x`, `2.5`) and a signed lone operand (`-x`, `+nan`).         *)
 (*   Rename(m)         replace_token_from_lookup(text, dict(m))                       *)
 (*   RenameOne(a, b)   replace_token(text, a, b)                                      *)
+(*   RenameVia(r, m)   the same renaming reached through the callers named in C13's   *)
+(*                     anchor: r = "equation": Equation(lhs, rhs=text)                *)
+(*                     .ReplaceTokensFromLookup(dict(m)); r = "block": the equation   *)
+(*                     inside an EquationBlock, EquationBlock.ReplaceTokensFromLookup.*)
+(*                     The result is the equation's right-hand side.  An Equation may *)
+(*                     store its text in a normal form (a leading + or redundant      *)
+(*                     brackets of a one- or two-factor term dropped - C12's subject):*)
+(*                     the trace specification judges the C13 sentences on the stored *)
+(*                     form observed before the call and requires its names to be the *)
+(*                     names of the expression.                                       *)
 (*   ListNames         list_tokens(text)                                              *)
 (*                                                                                    *)
 (* PushOp / LagOp / SubstOp / SubstOneOp / NamesOp are the single source of truth:    *)
@@ -42,6 +52,7 @@ CONSTANTS
     BinOps,         \* binary operator texts
     Maps,           \* set of renaming maps (sequences of [from, to])
     OnePairs,       \* set of [target, repl] for RenameOne
+    Routes,         \* callers through which Rename is also made: subset of {"equation", "block"}
     MaxUnits,       \* budget of Push/Lag steps (closing brackets are free)
     MinUnits,       \* calls are made on expressions of at least this many steps (0 except in -simulate)
     MaxDepth,       \* bound on bracket nesting
@@ -234,7 +245,7 @@ VARIABLES mode,     \* "build" | "done"
 vars == << mode, st, acts, ren, res, names >>
 toks == st.toks
 
-NoAct == [kind |-> "none", map |-> << >>, target |-> "", repl |-> ""]
+NoAct == [kind |-> "none", map |-> << >>, target |-> "", repl |-> "", route |-> ""]
 LastAct == IF acts = << >> THEN NoAct ELSE acts[Len(acts)]
 
 Init == /\ mode = "build" /\ st = St0 /\ acts = << >> /\ ren = << >> /\ res = << >> /\ names = << >>
@@ -260,7 +271,19 @@ Rename(m) ==
     /\ mode' = "done"
     /\ ren' = m
     /\ res' = SubstOp(toks, m)
-    /\ acts' = Append(acts, [kind |-> "Rename", map |-> m, target |-> "", repl |-> ""])
+    /\ acts' = Append(acts, [kind |-> "Rename", map |-> m, target |-> "", repl |-> "", route |-> ""])
+    /\ UNCHANGED << st, names >>
+
+(* one equation: a block of several logical lines is not a right-hand side *)
+OneLine(ts) == \A i \in 1..Len(ts) : ts[i].kind # "NEWLINE"
+
+RenameVia(r, m) ==
+    /\ Ready
+    /\ OneLine(toks)
+    /\ mode' = "done"
+    /\ ren' = m
+    /\ res' = SubstOp(toks, m)
+    /\ acts' = Append(acts, [kind |-> "RenameVia", map |-> m, target |-> "", repl |-> "", route |-> r])
     /\ UNCHANGED << st, names >>
 
 RenameOne(a, b) ==
@@ -268,19 +291,20 @@ RenameOne(a, b) ==
     /\ mode' = "done"
     /\ ren' = << [from |-> a, to |-> b] >>
     /\ res' = SubstOneOp(toks, a, b)
-    /\ acts' = Append(acts, [kind |-> "RenameOne", map |-> << >>, target |-> a, repl |-> b])
+    /\ acts' = Append(acts, [kind |-> "RenameOne", map |-> << >>, target |-> a, repl |-> b, route |-> ""])
     /\ UNCHANGED << st, names >>
 
 ListNames ==
     /\ Ready
     /\ mode' = "done"
     /\ names' = NamesOp(toks)
-    /\ acts' = Append(acts, [kind |-> "ListNames", map |-> << >>, target |-> "", repl |-> ""])
+    /\ acts' = Append(acts, [kind |-> "ListNames", map |-> << >>, target |-> "", repl |-> "", route |-> ""])
     /\ UNCHANGED << st, ren, res >>
 
 Next == \/ \E t \in Alphabet : Push(t)
         \/ Lag
         \/ \E m \in Maps : Rename(m)
+        \/ \E r \in Routes, m \in Maps : RenameVia(r, m)
         \/ \E p \in OnePairs : RenameOne(p.target, p.repl)
         \/ ListNames
 
@@ -326,7 +350,7 @@ ListIsNamesInOrder(ts, ns) ==
     /\ Len(ns) = Cardinality(NameIdx(ts))
     /\ \A j \in 1..Len(ns) : ns[j] = ts[NthNameIdx(ts, j)].text
 
-Renamed == mode = "done" /\ LastAct.kind \in {"Rename", "RenameOne"}
+Renamed == mode = "done" /\ LastAct.kind \in {"Rename", "RenameOne", "RenameVia"}
 
 C13_OnlyWholeNames == Renamed => OnlyWholeNames(toks, ren, res)
 
